@@ -343,23 +343,6 @@ def rule_client_immutable(fm, rep, rid='R7'):
 FMT_CTOR = 'cadence::builder::MetricFormatter::'
 
 
-VIEW_CALLS = ('::as_deref', '::as_str', '::as_ref', '::as_slice', '::iter', 'IntoIterator>::into_iter', 'Deref>::deref', '::as_mut',
-              '::borrow', '::as_bytes')
-
-
-def strip_views(t):
-    """peel references and order/identity preserving view calls: `x.as_deref()`, `&x`, `x.iter()`, `x.as_str()` ..."""
-    while True:
-        t = peel(t)
-        if t[0] == 'call' and isinstance(t[1], str) and len(t[2]) == 1 and any(t[1].endswith(s) for s in VIEW_CALLS):
-            t = t[2][0]
-            continue
-        if t[0] == 'load':
-            t = t[1]
-            continue
-        return t
-
-
 def mentions_client_field(cad, t, role, depth=0):
     """Does term t (an argument built inside a *_with_tags body) derive from the client's field of that role?
     Local helper calls taking only &self are expanded through their return term."""
